@@ -80,7 +80,9 @@ Gen ==
                 <<Ev.chk = <<InCheck(pos.bd, "w"), InCheck(pos.bd, "b"), InCheck(pos.bd, pos.stm)>>, "C05",
                   "is_in_check(white), is_in_check(black), is_current_in_check",
                   ToString(<<InCheck(pos.bd, "w"), InCheck(pos.bd, "b"), InCheck(pos.bd, pos.stm)>>)>>,
-                <<Ev.valid = IsValid(pos), "C05", "is_valid", ToString(IsValid(pos))>> >>
+                <<Ev.valid = IsValid(pos), "C05", "is_valid", ToString(IsValid(pos))>>,
+                <<Ev.anylegal = (lg # {}), "C05", "is_any_move_legal: a position has no legal move exactly when it is checkmate or stalemate", ToString(lg # {})>>,
+                <<(Ev.legal = <<>>) = (lg = {}), "C05", "generate_legal_moves is empty exactly when the position is checkmate or stalemate", ToString(lg = {})>> >>
              \o SnapChecks(pos, Ev.snap, "C03"))
         /\ ntr' = IF NonTrivial(pos, lg) THEN ntr \cup {l} ELSE ntr
         /\ LET np == Resync(pos, Ev.snap)
